@@ -28,9 +28,12 @@ def build(H, tier, seed):
     U.vc_addsub(H, 'sub')
     D.vc_getitem(H, 'OperatorDict')
     D.vc_getitem(H, 'UnaryOperatorDict')
+    D.vc_symbolic_operands(H)
     D.vc_call_binary(H)
     D.vc_unary_call(H)
     A.vc_trivial_accessors(H)
+    from contracts import misc_c as MC
+    MC.vc_codegen_sqrt(H)
     from contracts import codegen_glue_c as G
     G.vc_do_codegen(H)
     G.vc_func_builder(H)
